@@ -185,10 +185,12 @@ func ReassembleTOAST(chunks []TOASTChunk, valueID uint32, ptr *TOASTPointer) []b
 			return decompressed
 		}
 		
-		// Try zlib as fallback
+		// Try zlib as fallback.  Like the two decompressors above it never returns more than the
+		// va_rawsize of the pointer: a deflate stream expands up to 1032 times, so an unbounded
+		// read turns a 256 KiB chunk into 200 MB.
 		if r, err := zlib.NewReader(bytes.NewReader(data)); err == nil {
 			defer r.Close()
-			if decompressed, err := io.ReadAll(r); err == nil {
+			if decompressed, err := io.ReadAll(io.LimitReader(r, int64(rawSize))); err == nil {
 				return decompressed
 			}
 		}
